@@ -211,8 +211,11 @@ def judge_clip(ctx, file_sr, te, channels, n_frames, seed, start, end, history=N
             ctx.violate("load_clip:time_axis_length", "load_clip:time_axis_length", observed=len(t), expected=m, spec=spec)
         elif m:
             wt = (off + np.arange(m)) / sr
-            if np.abs(t - wt).max() > 1e-9:
-                i = int(np.abs(t - wt).argmax())
+            # 1e-9 s, or -- on long clips -- the rounding an increment-based axis accumulates: (i + 6) ulps at the
+            # magnitude of the times (same argument as for C16 ranges)
+            tolv = np.maximum(1e-9, (np.arange(m) + 6) * float(np.spacing(max(abs(float(wt[0])), abs(float(wt[-1])), 1.0))))
+            if (np.abs(t - wt) > tolv).any():
+                i = int((np.abs(t - wt) - tolv).argmax())
                 ctx.violate("load_clip:frame_times", "load_clip:frame_times", observed={"i": i, "t": float(t[i])}, expected=float(wt[i]), spec=spec)
         check_axis(ctx, "time", t, wav.time.attrs.get("step"), off / sr, spec, "load_clip")
         st = wav.time.attrs.get("step")
@@ -288,6 +291,11 @@ def judge_spectrogram(ctx, wav, window, hop, spec):
                           variants={"numlike_sizes": {"window_size": calling.numlike(ctx.rng, window), "hop_size": calling.numlike(ctx.rng, hop)}})
         sp = SP.compute_spectrogram(wav, window_size=window, hop_size=hop)
     except Exception as e:
+        step_ = wav.time.attrs.get("step") or float(wav.time.data[1] - wav.time.data[0])
+        if isinstance(e, ValueError) and int(window / step_) > wav.sizes["time"]:
+            # a window longer than the signal: scipy shortens it, and refuses when the requested overlap no longer fits
+            ctx.ood("spectrogram:window_longer_than_signal_and_overlap_does_not_fit")
+            return
         ctx.violate_exc("spectrogram:raises", f"spectrogram:raises:{type(e).__name__}", e, spec=spec)
         return
     if tuple(sp.dims) != ("frequency", "time", "channel") or sp.sizes["channel"] != wav.sizes["channel"]:
@@ -310,6 +318,13 @@ def run(ctx):
                           "axis.resample.time", "axis.compute_spectrogram.time", "axis.compute_spectrogram.frequency"]
     ctx.must_reach += ["audio/io.py::load_clip", "audio/io.py::load_recording", "audio/operations.py::resample", "audio/spectrograms.py::compute_spectrogram"]
 
+    # directed: a signal shorter than the analysis window (scipy shortens the window; the axes must follow) -- fixed defect
+    dwav = judge_recording(ctx, 1017, 1.0, 2, 515, 4242)
+    if dwav is not None:
+        for hop_frac in (0.5, 0.75, 1.0, 2.0):
+            dspec = {"file_sr": 1017, "te": 1.0, "channels": 2, "n_frames": 515, "seed": 4242, "kind": "spectrogram", "window": 1024 / 1017, "hop": hop_frac * 1024 / 1017}
+            ctx.case(("spectrogram", "directed", "window_longer_than_signal"), dspec)
+            judge_spectrogram(ctx, dwav, dspec["window"], dspec["hop"], dspec)
     n_files = ctx.scale(22, 30)
     for fi in range(n_files):
         if fi < len(FILE_SRS):
